@@ -19,7 +19,7 @@ use serde_json::json;
 use std::collections::BTreeMap;
 use versatiles_core::types::*;
 
-const RULE: &str = "1-3 sources (memory / versatiles / pmtiles / mbtiles / tar / directory) under chains of 1-4 filter stages generated from the case splits: zoom bounds absent / inside / at the edge / beyond the source's zoom range / min>max / not a u8; geographic boxes: world, point, tile-aligned (edges exactly on tile borders, +-1e-7 nudges), random, reversed, out of range, NaN, inf, wrong arity; filters above and below from_overlayed. Coordinates: all of zoom <= 4, every tile and its neighbours, random ones up to zoom 31. non-trivial = the filter keeps some but not all of the source's tiles (lookups) / box partially overlaps the narrowed coverage or crosses a block border (streams) / argument invalid (build)";
+const RULE: &str = "1-3 sources (memory / versatiles / pmtiles / mbtiles / tar / directory) under chains of 1-4 filter stages generated from the case splits: zoom bounds absent / inside / at the edge / beyond the source's zoom range / min>max / not a u8 (word, float, negative, empty, > 255); geographic boxes: world, point, tile-aligned (edges exactly on tile borders, +-1e-7 nudges), random, reversed, out of range, NaN, inf, wrong arity (0,1,3,5,8 entries), repeated key, non-numeric entry or tail, scalar; zoom-then-bbox and bbox-then-zoom orders and every chain also reversed; filters above and below from_overlayed. Coordinates: all of zoom <= 4, every tile and its neighbours, random ones up to zoom 31. non-trivial = the filter keeps some but not all of the source's tiles (lookups) / box partially overlaps the narrowed coverage or crosses a block border (streams) / argument invalid (build)";
 
 #[derive(Clone, Debug)]
 enum Stage {
@@ -36,7 +36,7 @@ fn parse_stage(tok: &str) -> Option<Stage> {
 			let p = |s: &str| -> (Option<i64>, bool) {
 				match s {
 					"n" => (None, false),
-					"x" => (None, true),
+					v if v.starts_with('x') => (None, true),
 					v => (v.parse().ok(), false),
 				}
 			};
@@ -45,7 +45,7 @@ fn parse_stage(tok: &str) -> Option<Stage> {
 			Some(Stage::Zoom(a, b, xa || xb))
 		}
 		"B" => {
-			if rest == "x" {
+			if rest.starts_with('x') {
 				return Some(Stage::BBoxArity);
 			}
 			let v: Vec<f64> = rest.split(':').map(|t| f64::from_bits(t.parse::<u64>().unwrap())).collect();
@@ -92,11 +92,12 @@ fn bad_geo(rng: &mut Rng) -> String {
 
 fn gen_stage(rng: &mut Rng, levels: &BTreeMap<u8, Vec<(u32, u32)>>, allow_invalid: bool) -> String {
 	if allow_invalid && rng.chance(3, 4) {
-		return match rng.below(5) {
-			0 => "Zx:n".to_string(),
-			1 => format!("Z{}:n", rng.range(256, 70000)),
-			2 => format!("Zn:{}", rng.range(256, 70000)),
-			3 => "Bx".to_string(),
+		return match rng.below(10) {
+			0 => format!("Z{}:n", rng.pick(&["x", "xf", "xn", "xe"])),
+			1 => format!("Z{}:{}", rng.range(0, 5), rng.pick(&["x", "xf", "xn", "xe"])),
+			2 => format!("Z{}:n", rng.pick(&[256u64, 257, 300, 65536, 70000])),
+			3 => format!("Zn:{}", rng.pick(&[256u64, 257, 300, 65536, 70000])),
+			4..=7 => format!("B{}", rng.pick(&["x", "x0", "x1", "x5", "x8", "xr", "xt", "xn", "xs"])),
 			_ => bad_geo(rng),
 		};
 	}
@@ -314,6 +315,15 @@ pub fn run(args: &Args) {
 		}
 		let coords = coord_list(&mut rng, &specs, wi % 2 == 0);
 		let coords_s = coords.iter().map(|c| format!("{},{},{}", c.x, c.y, c.z)).collect::<Vec<_>>().join(";");
+		// the battery of invalid arguments, each alone on a valid source: must be `Err`, never `Ok`, never a panic
+		if wi % 3 == 0 {
+			for bad in ["Bx", "Bx0", "Bx1", "Bx5", "Bx8", "Bxr", "Bxt", "Bxn", "Bxs", "Zx:n", "Zxf:n", "Zxn:n", "Zxe:n", "Zn:xf", "Zn:xn", "Z256:n", "Zn:300"] {
+				let rpn = format!("L0,{bad}");
+				out.count("invalid_battery");
+				check_chain(&rt, &mut out, &w, &rpn, &coords[..coords.len().min(3)]);
+				run_in_world(&rt, &mut out, &mut id, &w, "C09", "P", &rpn, "");
+			}
+		}
 		for pi in 0..args.n(5, 8) {
 			// chain over source 0
 			let n_st = rng.range(1, 4);
@@ -326,11 +336,38 @@ pub fn run(args: &Args) {
 			}
 			out.count(&format!("chain_len_{n_st}"));
 			check_chain(&rt, &mut out, &w, &rpn, &coords);
+			// chains are the intersection: the reversed order must satisfy the same per-coordinate spec
+			if n_st >= 2 {
+				let mut toks: Vec<&str> = rpn.split(',').collect();
+				toks[1..].reverse();
+				let rev = toks.join(",");
+				out.count("chain_reversed");
+				check_chain(&rt, &mut out, &w, &rev, &coords);
+				run_in_world(&rt, &mut out, &mut id, &w, "C09", "P", &rev, "");
+				run_in_world(&rt, &mut out, &mut id, &w, "C09", "G", &rev, &coords_s);
+			}
 			run_in_world(&rt, &mut out, &mut id, &w, "C09", "P", &rpn, "");
 			run_in_world(&rt, &mut out, &mut id, &w, "C09", "G", &rpn, &coords_s);
 			for (z, present) in levels.iter() {
 				let boxes = gen_boxes(&mut rng, *z, present, 1, args.n(10, 24));
 				run_in_world(&rt, &mut out, &mut id, &w, "C09", "S", &rpn, &boxes_arg(&boxes));
+			}
+			// a zoom filter that empties the low levels BEFORE / AFTER a bbox filter (coverage no longer starts at
+			// level 0 when the geographic box is applied), both orders
+			if pi == 0 {
+				let zs: Vec<u8> = levels.iter().filter(|(_, v)| !v.is_empty()).map(|(z, _)| *z).collect();
+				let zmin = if zs.is_empty() { 1 } else { (*rng.pick(&zs)).max(1) };
+				let g = geo_arg(&mut rng, &levels);
+				for rpn3 in [format!("L0,Z{zmin}:n,{g}"), format!("L0,{g},Z{zmin}:n"), format!("L0,Z{zmin}:n,{g},Zn:{}", zmin + 3)] {
+					out.count("chain_zoom_then_bbox_orders");
+					check_chain(&rt, &mut out, &w, &rpn3, &coords);
+					run_in_world(&rt, &mut out, &mut id, &w, "C09", "P", &rpn3, "");
+					run_in_world(&rt, &mut out, &mut id, &w, "C09", "G", &rpn3, &coords_s);
+					for (z, present) in levels.iter().take(3) {
+						let boxes = gen_boxes(&mut rng, *z, present, 1, args.n(6, 12));
+						run_in_world(&rt, &mut out, &mut id, &w, "C09", "S", &rpn3, &boxes_arg(&boxes));
+					}
+				}
 			}
 			// filters below and above an overlay (model correspondence + stream oracle)
 			if specs.len() >= 2 && pi < 2 {
